@@ -29,17 +29,13 @@ var plusRe = regexp.MustCompile(`(?m)^\+\+\+ b/(\S+)`)
 var openRe = regexp.MustCompile(`open: \[(R[\d.]+[a-z]?)\]`)
 
 // mechanical rewrites applied to a scratch copy of the whole tree; the
-// property's rules must stay silent on each.  tagswitch turns the lexers' and
-// the statement table's large dispatch switches into if-chains, which the
-// rules of C03, C04 and C09 read as tables (DESIGN §7.3): not run for those.
+// property's rules must stay silent on each (tagswitch turns every switch
+// over constants into an if-chain: the loader folds such chains back, §7.3).
 var mechKinds = []string{"invert", "nest", "merge", "chain", "tagswitch", "unelse", "elseify", "elseflat", "orsplit", "contguard", "wrapcont", "incdec", "vardecl", "rename", "reorderdecls"}
 
 func runMechanical(prop, repo, verifd string) []selfVariant {
 	var out []selfVariant
 	for _, t := range mechKinds {
-		if t == "tagswitch" && (prop == "C03" || prop == "C04" || prop == "C09") {
-			continue
-		}
 		v := selfVariant{ID: "mechanical/" + t, Status: "neutralised", Note: "mechanical behaviour-preserving rewrite of every file; must NOT fire"}
 		tmp, err := os.MkdirTemp("", "yvmech")
 		if err != nil {
